@@ -58,6 +58,19 @@ def dense(seed, shape, tok, var="g"):
         L = np.tril(ints(g, shape, -1, 1, cplx=c), -1) + np.eye(r)
         U = np.triu(ints(g, shape, -1, 1, cplx=c), 1) + np.eye(r)
         A = L @ U
+    elif var in ("wc", "wcs"):  # well conditioned (diagonally dominant), entries of both signs / four phases; wcs: small |det|
+        assert r == k
+        A = ints(g, shape, -1, 1, cplx=c)
+        ph = np.where(g.integers(0, 2, size=r) == 1, 1.0, -1.0).astype(np.complex128)
+        if c:
+            ph = ph * np.array([1, 1j])[g.integers(0, 2, size=r)]
+        A = A - np.diag(np.diag(A)) + np.diag((r + 1) * ph)
+        if var == "wcs":
+            A = A / 8.0
+    elif var in ("rdd", "cdd"):  # full-rank rectangular [D | B] (rdd, r<k) or [D ; B] (cdd, r>k) with D = +-3 I
+        m = min(r, k)
+        A = ints(g, shape, -1, 1, cplx=c)
+        A[:m, :m] = np.diag(np.where(g.integers(0, 2, size=m) == 1, 3.0, -3.0))
     elif var in ("orth", "stf"):  # (columns of a) signed / phased permutation matrix: exactly unitary
         assert r >= k
         p = g.permutation(r)
@@ -89,6 +102,16 @@ def sparse(seed, shape, tok, var="g"):
     r, k = shape
     cells = [(i, j) for i in range(r) for j in range(k)]
     n = max(1, (2 * len(cells)) // 3)
+    if var == "dd":  # square, every diagonal cell present with +-(n+1), some off-diagonal +-1: invertible
+        off = [q for q, (i, j) in enumerate(cells) if i != j]
+        dia = [q for q, (i, j) in enumerate(cells) if i == j]
+        pick = g.permutation(np.array(dia + list(g.permutation(off)[:len(off) // 2])))
+        rows = np.array([cells[p][0] for p in pick], dtype=np.int64)
+        cols = np.array([cells[p][1] for p in pick], dtype=np.int64)
+        vals = ints(g, (len(pick), ), -1, 1, cplx=is_cplx(tok), nonzero=True)
+        sgn = np.where(g.integers(0, 2, size=len(pick)) == 1, 1.0, -1.0)
+        vals = np.where(rows == cols, (r + 1) * sgn, vals).astype(DT[tok])
+        return vals, rows, cols
     pick = g.permutation(len(cells))[:n]
     rows = np.array([cells[p][0] for p in pick], dtype=np.int64)
     cols = np.array([cells[p][1] for p in pick], dtype=np.int64)
@@ -130,6 +153,14 @@ def diag(seed, n, tok, var="mixed"):
 def tridiag(seed, n, tok, var="gen"):
     g = rng(seed, "tridiag", n, tok, var)
     c = is_cplx(tok)
+    if var in ("dd", "ddsym"):  # diagonally dominant: invertible, cond <= 3; ddsym: positive definite Hermitian
+        alpha = ints(g, (max(n - 1, 0), ), -1, 1, cplx=c, nonzero=True)
+        gamma = alpha.conj() if var == "ddsym" else ints(g, (max(n - 1, 0), ), -1, 1, cplx=c, nonzero=True)
+        beta = 4.0 * (np.ones(n) if var == "ddsym" else np.where(g.integers(0, 2, size=n) == 1, 1.0, -1.0))
+        if c:
+            alpha = alpha / np.maximum(np.abs(alpha), 1) if False else alpha
+        T = DT[tok]
+        return alpha.astype(T), beta.astype(T), gamma.astype(T)
     beta = ints(g, (n, ), cplx=c and var != "sym")
     alpha = ints(g, (max(n - 1, 0), ), cplx=c, nonzero=True)
     gamma = alpha.conj() if var == "sym" else ints(g, (max(n - 1, 0), ), cplx=c, nonzero=True)
